@@ -3,7 +3,7 @@
    `seesaw_grammar` is regenerated on every run from the runtime pyparsing element graph. *)
 From Coq Require Import List NArith.
 From DSD Require Import Base.Str Base.Errors Base.Val Model.Peg Model.DispatchPeg
-  Proofs.PegMono Proofs.PegStd Proofs.PegDoc Proofs.C13Base Proofs.C13Doc Proofs.C19Doc Proofs.C19Lex Proofs.C19Io Proofs.PegNum Proofs.C19Args Proofs.C19Stm Proofs.C19Rej.
+  Proofs.PegMono Proofs.PegStd Proofs.PegDoc Proofs.C13Base Proofs.C13Doc Proofs.C19Doc Proofs.C19Lex Proofs.C19Io Proofs.PegNum Proofs.C19Args Proofs.C19Stm Proofs.C19Rej Proofs.PegTerm Proofs.C13Fuel Proofs.PegCover Proofs.C13Cover.
 From DSDGen Require Import SeesawGrammar.
 Import ListNotations.
 
@@ -121,7 +121,25 @@ Theorem C19_reject_reporter_arguments : forall f y junk pls b,
 Proof. exact reject_reporter_arguments. Qed.
 Print Assumptions C19_reject_reporter_arguments.
 
-(* ---- full statements not yet proved (listed under `partial` in the evidence) ---- *)
-(* rejection of a wrong number / kind of arguments for the statement kinds other than reporter and of a bad
-   concentration on gate / threshold targets: checked on the implementation and in the correspondence *)
-Definition C19_default_fuel_suffices_full : Prop := forall text, parse_seesaw text <> err eFuel.
+(* Termination within the default fuel (generic analysis of Proofs/PegTerm.v run on the regenerated
+   seesaw table): parse_seesaw never answers OutOfFuel *)
+Theorem C19_default_fuel_suffices : forall text, parse_seesaw text <> err eFuel.
+Proof. exact seesaw_default_fuel_suffices. Qed.
+Print Assumptions C19_default_fuel_suffices.
+
+(* hence every "for all sufficiently large fuel" statement above holds for parse_seesaw itself *)
+Theorem C19_default_fuel_gives_eventual_result : forall text v,
+  (exists f0, forall f, f0 <= f -> parse_seesaw_fuel f text = v) -> parse_seesaw text = v.
+Proof. exact seesaw_default_is_limit. Qed.
+Print Assumptions C19_default_fuel_gives_eventual_result.
+
+(* no_skipped_text: a successful parse ends at the end of the input and the whole text is a
+   concatenation of matched terminals and of blanks / comments skipped by preParse *)
+Theorem C19_no_skipped_text : forall fuel text p toks,
+  parse_string_fuel seesaw_grammar fuel text = POk p toks -> p = Past /\ pieces seesaw_nodes (expandtabs text).
+Proof. exact seesaw_no_skipped_text. Qed.
+Print Assumptions C19_no_skipped_text.
+
+(* ---- not proved (listed under `partial` in the evidence): rejection of a wrong number / kind of
+   arguments for the statement kinds other than reporter and of a bad concentration on gate /
+   threshold targets: checked on the implementation and in the correspondence ---- *)
